@@ -2200,3 +2200,41 @@ def vec_capacity(m, a, ci):
 @reg('Vec::reserve', 'Vec::shrink_to_fit', 'Vec::reserve_exact')
 def vec_reserve(m, a, ci):
     return UNIT
+
+
+@reg('DoubleEndedIterator::rfind')
+def iter_rfind(m, a, ci):
+    it = get_iter(m, a[0])
+    while True:
+        o = it.next_back(m)
+        if o.variant == 'None':
+            return NONE
+        if m.ctx.branch(m.call_value(a[1], [m.heap.alloc(o.fields[0])])):
+            return o
+
+
+@reg('DoubleEndedIterator::rposition')
+def iter_rposition(m, a, ci):
+    it = get_iter(m, a[0])
+    xs = drain(m, it)
+    for i in range(len(xs) - 1, -1, -1):
+        if m.ctx.branch(m.call_value(a[1], [xs[i]])):
+            return some(i)
+    return NONE
+
+
+@reg('PartialEq::ne')
+def generic_ne(m, a, ci):
+    """default `ne` of a derived PartialEq: negation of the crate's own `eq`"""
+    from .machine import parse_call_name
+    ci2 = parse_call_name('<%s as PartialEq>::eq' % ci.T)
+    fn = None
+    for mod in [m.module] + list(m.extra_modules):
+        fn = mod.defindex.resolve(ci2)
+        if fn is not None:
+            break
+    if fn is None:
+        x = m.load(a[0]) if isinstance(a[0], Ref) else a[0]
+        y = m.load(a[1]) if isinstance(a[1], Ref) else a[1]
+        return b_not(value_eq(m, x, y))
+    return b_not(m.call_fn(fn, list(a)))
